@@ -68,6 +68,8 @@ def percent_format(eng, fmt, value, e):
         if eng.branch(v <= 999):
             return DigitStr(v, 3)
         return DigitStr(v, 4)
+    if isinstance(fmt, str) and fmt.count('%') == 1 and '%d' in fmt and isinstance(value, int) and not isinstance(value, bool):
+        return fmt % value                      # concrete text (e.g. the bitstring token 'uint:%d' % size)
     if isinstance(fmt, str) and fmt.count('%') == 1 and '%d' in fmt:
         return Formatted(fmt, value)
     return Opaque('formatted')
